@@ -1,10 +1,14 @@
 //! Native replay driver: runs one harness body (the same function Kani verified) on a concrete
 //! byte queue against /repo's real code.
-//!   exmex_replay <harness> <hex bytes>        exit 0 = obligations hold on this input
-//!                                             exit 1 = an obligation failed / the code panicked
-//!                                             exit 3 = input violates the harness pre-condition
-//!                                             exit 4 = unknown harness / bad usage
+//!   exmex_replay <harness> <hex bytes> [--palette]   exit 0 = obligations hold on this input
+//!                                                    exit 1 = an obligation failed / the code panicked
+//!                                                    exit 3 = input violates the harness pre-condition
+//!                                                    exit 4 = unknown harness / bad usage
+//!   exmex_replay --search <harness> <tries> <seed>   palette-mode search for a failing input;
+//!                                                    prints `FOUND <hex>` (exit 1) or `NOT-FOUND` (exit 0)
 //!   exmex_replay --list
+//! In palette mode every typed draw consumes one byte and yields that type's boundary value with this
+//! index (see `exmex_contracts::src::PAL_*`).
 use exmex_contracts::src::{Q, REJECT};
 use std::panic;
 
@@ -16,6 +20,29 @@ fn unhex(s: &str) -> Option<Vec<u8>> {
     (0..s.len()).step_by(2).map(|i| u8::from_str_radix(&s[i..i + 2], 16).ok()).collect()
 }
 
+/// 0 pass, 1 fail(message), 3 reject
+fn run_once(f: exmex_contracts::NativeHarness, bytes: &[u8], palette: bool) -> (i32, String, bool, usize) {
+    let b = bytes.to_vec();
+    let res = panic::catch_unwind(move || {
+        let mut q = if palette { Q::new_palette(&b) } else { Q::new(&b) };
+        f(&mut q);
+        (q.exhausted, q.bytes.len())
+    });
+    match res {
+        Ok((ex, left)) => (0, String::new(), ex, left),
+        Err(e) => {
+            let msg = if let Some(s) = e.downcast_ref::<&str>() {
+                s.to_string()
+            } else if let Some(s) = e.downcast_ref::<String>() {
+                s.clone()
+            } else {
+                "<non-string panic>".to_string()
+            };
+            if msg == REJECT { (3, msg, false, 0) } else { (1, msg, false, 0) }
+        }
+    }
+}
+
 fn main() {
     let args: Vec<String> = std::env::args().collect();
     let reg = exmex_contracts::registry();
@@ -25,8 +52,32 @@ fn main() {
         }
         return;
     }
-    if args.len() != 3 {
-        eprintln!("usage: exmex_replay <harness> <hex bytes> | --list");
+    panic::set_hook(Box::new(|_| {}));
+    if args.len() == 5 && args[1] == "--search" {
+        let Some((_, f)) = reg.iter().find(|(n, _)| *n == args[2]) else {
+            eprintln!("unknown harness {}", args[2]);
+            std::process::exit(4);
+        };
+        let tries: u64 = args[3].parse().unwrap_or(10000);
+        let mut state: u64 = args[4].parse::<u64>().unwrap_or(1).wrapping_mul(0x9E3779B97F4A7C15) | 1;
+        let mut next = || { state ^= state << 13; state ^= state >> 7; state ^= state << 17; state };
+        let mut buf = vec![0u8; 160];
+        for t in 0..tries {
+            // early tries: constant strings (every draw gets the same palette index), then random
+            if t < 64 { for b in buf.iter_mut() { *b = t as u8; } } else { for b in buf.iter_mut() { *b = (next() >> 24) as u8; } }
+            let (rc, msg, _, _) = run_once(*f, &buf, true);
+            if rc == 1 {
+                let hex: String = buf.iter().map(|b| format!("{:02x}", b)).collect();
+                println!("FOUND {} message={:?}", hex, msg);
+                std::process::exit(1);
+            }
+        }
+        println!("NOT-FOUND after {} palette inputs", tries);
+        return;
+    }
+    let palette = args.len() == 4 && args[3] == "--palette";
+    if !(args.len() == 3 || palette) {
+        eprintln!("usage: exmex_replay <harness> <hex bytes> [--palette] | --search <harness> <tries> <seed> | --list");
         std::process::exit(4);
     }
     let Some((_, f)) = reg.iter().find(|(n, _)| *n == args[1]) else {
@@ -37,31 +88,10 @@ fn main() {
         eprintln!("bad hex");
         std::process::exit(4);
     };
-    panic::set_hook(Box::new(|_| {}));
-    let f = *f;
-    let res = panic::catch_unwind(move || {
-        let mut q = Q::new(&bytes);
-        f(&mut q);
-        (q.exhausted, q.bytes.len())
-    });
-    match res {
-        Ok((exhausted, left)) => {
-            println!("REPLAY pass harness={} exhausted={} unused_bytes={}", args[1], exhausted, left);
-        }
-        Err(e) => {
-            let msg = if let Some(s) = e.downcast_ref::<&str>() {
-                s.to_string()
-            } else if let Some(s) = e.downcast_ref::<String>() {
-                s.clone()
-            } else {
-                "<non-string panic>".to_string()
-            };
-            if msg == REJECT {
-                println!("REPLAY reject harness={}", args[1]);
-                std::process::exit(3);
-            }
-            println!("REPLAY fail harness={} message={:?}", args[1], msg);
-            std::process::exit(1);
-        }
+    let (rc, msg, exhausted, left) = run_once(*f, &bytes, palette);
+    match rc {
+        0 => println!("REPLAY pass harness={} exhausted={} unused_bytes={}", args[1], exhausted, left),
+        3 => { println!("REPLAY reject harness={}", args[1]); std::process::exit(3); }
+        _ => { println!("REPLAY fail harness={} message={:?}", args[1], msg); std::process::exit(1); }
     }
 }
